@@ -89,6 +89,7 @@ pub fn common(sc: &Scenario, h: &History, signed: &Signeds, out: &mut Outcome) {
         match &sc.ops[i] {
             Op::Observe if r.is_ok() => out.count("hist.observer_calls", 1),
             Op::ForkClone => out.count("hist.clone_handovers", 1),
+            Op::HandOverAgain(_) if h.results.get(i).map_or(false, |r| r.is_ok()) => out.count("fault.F6_unchanged_collection_builders_handed_over_again", 1),
             Op::Out(o) if o.form != 0 && r.is_ok() => out.count("hist.outputs_decoded_from_bytes", 1),
             _ => {}
         }
